@@ -24,6 +24,8 @@ from liquid.token import TOKEN_LBRACKET
 from liquid.token import TOKEN_RBRACKET
 from liquid.token import TOKEN_WORD
 
+from ._tokenize import _keywords as KEYWORDS
+
 if TYPE_CHECKING:
     from liquid import Environment
     from liquid import RenderContext
@@ -35,7 +37,17 @@ Location = tuple[Union[str, int, "Location"], ...]
 
 
 # This is use for pretty printing paths with shorthand notation where possible.
-RE_PROPERTY = re.compile(r"[\u0080-\uFFFFa-zA-Z_][\u0080-\uFFFFa-zA-Z0-9_-]*")
+# It must not accept anything the expression lexer would not read back as a word.
+RE_PROPERTY = re.compile(r"[^\W\d][\w\-]*")
+
+
+def is_property(segment: str) -> bool:
+    """Return `True` if _segment_ can be written in shorthand (dotted) notation.
+
+    That is, if the expression lexer reads it back as a single word: keywords
+    like `if`, `empty` or `limit` are not words.
+    """
+    return bool(RE_PROPERTY.fullmatch(segment)) and segment not in KEYWORDS
 
 
 def quote_string(value: str) -> str:
@@ -64,7 +76,7 @@ class Path(Expression):
             if isinstance(segment, Path):
                 buf.append(f"[{segment}]")
             elif isinstance(segment, str):
-                if RE_PROPERTY.fullmatch(segment):
+                if is_property(segment):
                     buf.append(f".{segment}" if buf else segment)
                 else:
                     buf.append(f"[{quote_string(segment)}]")
